@@ -6,6 +6,7 @@ import (
 	"math/rand"
 	"sort"
 	"strings"
+	"sync/atomic"
 	"time"
 
 	"verif/internal/gen/puppet"
@@ -91,7 +92,7 @@ func RunConfigs(e *Env) {
 func runConcurrentCreation(e *Env) {
 	R := e.R
 	rng := e.Rand(142)
-	iters := e.Pick(1500, 40000)
+	iters := e.Pick(5000, 100000)
 	if e.Of > 1 {
 		iters /= e.Of
 	}
@@ -99,20 +100,21 @@ func runConcurrentCreation(e *Env) {
 		mgr := puppet.NewManager(gorums.WithNoConnect())
 		qs := &h.QSpec{}
 		base := 9200 + rng.Intn(50)
-		const G = 4
+		const G = 8
 		cfgs := make([]*puppet.Configuration, G)
 		errs := make([]error, G)
 		lists := make([][]string, G)
 		for g := 0; g < G; g++ {
-			for k := 0; k < 1+rng.Intn(3); k++ {
-				lists[g] = append(lists[g], fmt.Sprintf("127.0.0.1:%d", base+rng.Intn(3)))
+			for k := 0; k < 1+rng.Intn(2); k++ {
+				lists[g] = append(lists[g], fmt.Sprintf("127.0.0.1:%d", base+rng.Intn(2)))
 			}
 		}
-		start := make(chan struct{})
+		var start atomic.Bool
 		done := make(chan struct{}, G)
 		for g := 0; g < G; g++ {
 			go func(g int) {
-				<-start
+				for !start.Load() { // spin barrier: all goroutines enter creation at the same instant
+				}
 				if g%2 == 0 {
 					cfgs[g], errs[g] = mgr.NewConfiguration(gorums.WithNodeList(lists[g]), qs)
 				} else {
@@ -125,7 +127,8 @@ func runConcurrentCreation(e *Env) {
 				done <- struct{}{}
 			}(g)
 		}
-		close(start)
+		time.Sleep(20 * time.Microsecond)
+		start.Store(true)
 		for g := 0; g < G; g++ {
 			<-done
 		}
